@@ -63,3 +63,14 @@ Theorem C18_password_only_after_its_prompt :
     (pre = [] \/ pre = [CR]) /\ (u = [] \/ u = utf8_enc (b_user cfg) ++ [CR]).
 Proof. exact password_only_after_prompt. Qed.
 Print Assumptions C18_password_only_after_its_prompt.
+
+(* (3b) the autoboot keys are sent only in response to the autoboot prompt: while the wait for it does not return,
+        nothing is sent and the stage does not succeed *)
+Theorem C18_autoboot_keys_only_after_prompt :
+  forall fuel cfg sts c r c' sts',
+  u_autoboot cfg = true ->
+  (forall tmo out c1, read_until_prompt (Some (SRe AUTOBOOT_RE)) tmo c <> (Ret out, c1)) ->
+  uboot_bringup fuel cfg sts c = (r, c', sts') ->
+  wr (io c') = wr (io c) /\ r <> BOk.
+Proof. exact autoboot_keys_only_after_prompt. Qed.
+Print Assumptions C18_autoboot_keys_only_after_prompt.
